@@ -54,7 +54,10 @@ WORDS_UNI = ['caf\u00e9', 'na\u00efve', '\u0436\u0438\u0437\u043d\u044c', '\u4e2
              '\uff21\uff22', '\U0010FFFF', '\ue000', '\ufffd', 'x\u0301']
 IMPLICIT = ['1', '-17', '0x1F', '0o17', '017', '1_000', '3.14', '-.5', '1e3', '.inf', '-.INF', '.nan', 'true', 'False',
             'yes', 'No', 'on', 'OFF', 'null', '~', '', '2001-12-14', '2001-12-14t21:59:43.10-05:00',
-            '2001-12-14 21:59:43.10 -5', '190:20:30', '0b1010', '<<', '=', '+12', '1:30']
+            '2001-12-14 21:59:43.10 -5', '190:20:30', '0b1010', '<<', '=', '+12', '1:30',
+            # near misses of the numeric forms (plain strings): a digit run with a bad tail is where a careless regular
+            # expression backtracks
+            '0xDEADBEEFG', '0b10102', '0o778', '1_000_x', '+.inf.', '190:20:30:zz', '2001-12-14x', '1e3e', '-0x1F-dirty', '12:60']
 ESCAPES = ['\\0', '\\a', '\\b', '\\t', '\\n', '\\v', '\\f', '\\r', '\\e', '\\ ', '\\"', '\\/', '\\\\', '\\N', '\\_', '\\L',
            '\\P', '\\x41', '\\xe9', '\\u263A', '\\u00e9', '\\U0001F600', '\\U00000041', '\\U0010FFFF',
            # JSON-style surrogate pairs and lone surrogate escapes (what json.dumps(ensure_ascii=True) writes)
